@@ -130,6 +130,7 @@ SPECIFIC_PATTERNS = [
     ("wconst", r"^Weight tensor must be constant$", ()),
     ("wsum", r"^The sum of the weights cannot exceed (\d+)$", ("WSumMax",)),
     ("bshape", r"^Optional Bias tensor must be of shape: 1D$", ()),
+    ("bconst", r"^Optional Bias tensor must be constant$", ()),          # the generated biases are constant (generator assumption)
     ("bshape_nonconst", r"^Optional Bias tensor must be of shape: 1D \(a constant Bias tensor of any other shape is reshaped "
                         r"to 1D\)$", ()),
     ("wsym", r"^Weight tensor zero points must be 0 when IFM is int8 or int16 \(unless --force-symmetric-int-weights is "
